@@ -221,3 +221,15 @@ M("c16-rtlsource", "C16", "streamer/source.py", "            elif df == 20 or df
 # ---- hidden state between calls (found through the generic re-evaluation of earlier cases, or the prelude / repeated calls)
 M("state-gs50-cache", "C11", "decoder/bds/bds50.py", "def gs50(msg: str) -> Optional[float]:", "_GS = {}\n\n\ndef gs50(msg: str) -> Optional[float]:\n    if msg[:10] in _GS:\n        return _GS[msg[:10]]\n    _GS[msg[:10]] = _gs50(msg)\n    return _GS[msg[:10]]\n\n\ndef _gs50(msg: str) -> Optional[float]:")
 M("state-callsign-last", "C10", "decoder/bds/bds08.py", "    cs = cs.replace(\"#\", \"\")\n    return cs", "    cs = cs.replace(\"#\", \"\")\n    global _LAST\n    try:\n        prev = _LAST\n    except NameError:\n        prev = None\n    _LAST = (msg[:8], cs)\n    if prev and prev[0] == msg[:8]:\n        return prev[1]\n    return cs")
+
+# ---- volume legs: state that depends on how much the process has decoded (a memo table with a cap, cleared between store and read)
+_H2B_OLD = "    num_of_bits = len(hexstr) * 4\n    binstr = bin(int(hexstr, 16))[2:].zfill(int(num_of_bits))\n    return binstr\n"
+def _h2b_new(cap):
+    return ("    if hexstr not in _H2B:\n        num_of_bits = len(hexstr) * 4\n        _H2B[hexstr] = bin(int(hexstr, 16))[2:].zfill(int(num_of_bits))\n"
+            "        if len(_H2B) > %d:\n            _H2B.clear()\n    return _H2B[hexstr]\n\n\n_H2B: dict = {}\n" % cap)
+for _p, _cap in (("C01", 1 << 17), ("C07", 1 << 20), ("C08", 1 << 20), ("C10", 1 << 18), ("C11", 1 << 20)):
+    M("%s-h2b-cap" % _p.lower(), _p, "py_common.py", _H2B_OLD, _h2b_new(_cap))
+M("c06-nl-count", "C06", "py_common.py", "    nz = 15\n", "    _n = cprNL.__dict__.setdefault('seen', [])\n    _n.append(1)\n    if len(_n) > 100000 and lat > 10:\n        lat = lat + 1.0\n    nz = 15\n")
+M("c02-parity-memo-cap", "C02", "py_common.py", "        c0 = crc(msg, encode=True)\n        c1 = int(msg[-6:], 16)\n",
+  "        _m = icao.__dict__.setdefault('memo', {})\n        if msg[:-6] not in _m:\n            if len(_m) >= 50000:\n                _m.clear()\n                _m[msg[:-6]] = 0\n"
+  "            else:\n                _m[msg[:-6]] = crc(msg, encode=True)\n        c0 = _m[msg[:-6]]\n        c1 = int(msg[-6:], 16)\n")
